@@ -274,6 +274,13 @@ def _build_shim(cfg, log):
     rc, out = _run(cmd, log=log)
     if rc != 0:
         raise RuntimeError("shim build failed for %s:\n%s" % (cfg, out[-4000:]))
+    if san == "thread":
+        cmd = ["gcc", "-std=gnu11", "-w"] + TSAN.split() + inc + [os.path.join(SHIM_DIR, "vf_thr.c")] + \
+              ["-L" + os.path.join(d, "lib"), "-lrelic", "-Wl,-rpath," + os.path.join(d, "lib"), "-lpthread",
+               "-o", os.path.join(d, "vf_thr")]
+        rc, out = _run(cmd, log=log)
+        if rc != 0:
+            raise RuntimeError("thread runner build failed:\n" + out[-4000:])
     if san == "trace":
         cmd = ["gcc", "-std=gnu11", "-w", "-O2", "-fPIC", "-shared",
                os.path.join(SHIM_DIR, "vf_trace.c"), "-o", os.path.join(d, "libvftrace.so")]
